@@ -494,11 +494,11 @@ def h_r1(p: Project, rep: Report):
         if isinstance(R, ast.Name) and any(d.kind == "augassign" for d in R_defs):
             for d in R_defs:
                 if d.kind == "assign":
-                    vals = [text(v) for v in resolve_values(d.value, cfg.node_of(d.stmt), reach)]
+                    vals = [text(hx.x(v)) for v in resolve_values(d.value, cfg.node_of(d.stmt), reach)]
                     good = bool(vals) and all(_is_chunk(v, src) for v in vals)
                     rep.check("H-R1", "parse_header:rawheader-starts-with-first-line-as-read", good, f"the raw header starts as {vals}: it differs from the bytes consumed since the start position (inserted, stripped or re-encoded characters shift the seek offset)" if not good else "", hloc(p, d.stmt))
                 elif d.kind == "augassign":
-                    v = text(d.stmt.value)
+                    v = text(hx.x(d.stmt.value))  # bytes bound to a local first: `raw = src.readline(); R += raw.decode(..)`
                     good = isinstance(d.stmt.op, ast.Add) and _is_chunk(v, src)
                     rep.check("H-R1", "parse_header:rawheader-extended-with-lines-as-read", good, f"the raw header is extended with {v}" if not good else "", hloc(p, d.stmt))
                 else:
@@ -748,11 +748,30 @@ def h_r3(p: Project, rep: Report):
         # the slice
         tgt = ps.targets[0]
         idx_name = tgt.elts[1].id if isinstance(tgt, ast.Tuple) and len(tgt.elts) == 2 and isinstance(tgt.elts[1], ast.Name) else None
-        slices = [x for x in ast.walk(fn) if isinstance(x, ast.Subscript) and isinstance(x.slice, ast.Slice) and isinstance(x.slice.lower, ast.Name) and x.slice.lower.id == idx_name]
+        # x[i:]  /  x[i:len(x)]  /  x[slice(i, None)]: the remainder from the match end
+        def _as_slice(x):
+            if not isinstance(x, ast.Subscript):
+                return None
+            if isinstance(x.slice, ast.Slice):
+                return x.slice.lower, x.slice.upper, x.slice.step
+            if isinstance(x.slice, ast.Name):
+                # span = slice(i, None); text[span]
+                sv_ = Expander(fn).x(x.slice)
+                if isinstance(sv_, ast.Call):
+                    x = ast.Subscript(value=x.value, slice=sv_, ctx=ast.Load())
+            if isinstance(x.slice, ast.Call) and isinstance(x.slice.func, ast.Name) and x.slice.func.id == "slice" and not x.slice.keywords and 2 <= len(x.slice.args) <= 3:
+                a_ = list(x.slice.args) + [None]
+                none_ = lambda e_: None if (isinstance(e_, ast.Constant) and e_.value is None) else e_
+                return a_[0], none_(a_[1]), none_(a_[2])
+            return None
+
+        slices = [x for x in ast.walk(fn) if _as_slice(x) is not None and isinstance(_as_slice(x)[0], ast.Name) and _as_slice(x)[0].id == idx_name]
         if not slices:
             rep.check("H-R3", "parse_header:v2-body-slice", False, "the body is not the slice of the decoded source from the header's match end", hloc(p, ps))
         for sl in slices:
-            ok = text(sl.value) == text(arg) and sl.slice.upper is None and sl.slice.step is None
+            lo_, up_, st_ = _as_slice(sl)
+            whole_tail = up_ is None or (isinstance(up_, ast.Call) and text(up_.func) == "len" and len(up_.args) == 1 and text(up_.args[0]) == text(sl.value))
+            ok = text(sl.value) == text(arg) and whole_tail and st_ is None
             rep.check("H-R3", "parse_header:v2-body-slice", ok, f"the body is sliced from {text(sl.value)}, not from the string the header was searched in ({text(arg)})" if not ok else "", hloc(p, sl))
     xm = [c for c in own_nodes(fn) if isinstance(c, ast.Call) and text(c.func) in ("XML_REGEX.match", "XML_REGEX.search")]
     ok = bool(xm) and all(text(c.func) == "XML_REGEX.match" for c in xm)
